@@ -73,7 +73,7 @@ def main(chk: core.Check) -> int:
     bufs = corpus + bufs
     kinds = ["corpus"] * len(corpus) + kinds
     try:
-        nat = native.run_raw_buffers(bufs, quiet=False, timeout=900)
+        nat = native.run_raw_buffers(bufs, quiet=False, timeout=(240 if thorough else 40))
     except native.BuildError as ex:
         chk.obligation_broken("correspondence", "native ASan build of raw_io.cc", str(ex))
         return chk.finish(None)
